@@ -15,7 +15,7 @@ func init() {
 		Floor: 13, MustExist: true, Run: runR091,
 	})
 	register(&Rule{
-		ID: "R09.2", Props: []string{"C09", "C08"}, Engine: "guard (SSA dominance)",
+		ID: "R09.2", Props: []string{"C09", "C08", "C14", "C16"}, Engine: "guard (SSA dominance)",
 		Text:  "verdicts are guarded: every notifyDataValid() of the CAS validators and eager constructors is dominated by (a) evidence that exactly the expected number of bytes was seen (bytesRemaining == 0 / size equality), (b) evidence that the stream ended (io.EOF from the underlying read, or the one-byte trailing probe followed by a passed size check), and (c) the equal edge of the comparison of the digest's hash with the hasher's sum; notifyCASHashMismatch / notifyCASSizeMismatch / notifyCASTooBig are called only on the failing edge of the corresponding comparison; every Source.notify* failure helper reports false to the callback and builds its error with the source's error code (INTERNAL for BackendProvided, INVALID_ARGUMENT for UserProvided)",
 		Floor: 12, MustExist: true, Run: runR092,
 	})
